@@ -84,6 +84,15 @@ def run(ctx):
         else:
             r.bad("fill_from_file|decoder", "fill_multi_line_buffer_from_file reads the raw file (bypassing the transcoder)", fn=h,
                   construct="decoder")
+        # the decoded stream is read to its end: no byte bound derived from the *encoded* size may cut it
+        for fn_ in (h, facts.fn(S + "::fill_multi_line_buffer_from_reader")):
+            bounded = [c for c in fn_.calls() if c.path in ("std::io::Read::take",) or c.path.endswith("::Take::new")]
+            if bounded:
+                r.bad("%s|unbounded" % fn_.name, "%s bounds the transcoded stream with Read::take at %s: the decoded text is longer or "
+                      "shorter than the encoded file, so a size taken from the file cuts it" % (fn_.name, bounded[0].loc), fn=fn_,
+                      loc=bounded[0].loc, construct="take")
+            else:
+                r.ok("%s|unbounded" % fn_.name, "the decoded stream is read until EOF (no Read::take bound)", fn=fn_)
         raw = [c for c in h.calls() if c.path in ("std::io::Read::read_to_end", "std::io::Read::read") and
                not mentions_call(ebh.operand(c.args[0]), BWB)]
         if raw:
